@@ -264,22 +264,37 @@ Proof. vm_compute. split; reflexivity. Qed.
    history; the pins named by the constraint lines are a sub-list of the allocation of that final state (hence
    each line names a pin owned by a granted request), no pin is named twice, and the clock constraints are the
    recorded ones (none in the Apicula .cst). *)
-Theorem C19_build_plan_exact v t cm hist dclk drst unused outs pl :
-  build v t cm hist dclk drst unused = (outs, inr pl) ->
+Theorem C19_build_plan_exact v t cm hist dclk drst unused raw outs pl :
+  build v t cm hist dclk drst unused raw = (outs, inr pl) ->
   outs = snd (run t cm hist) /\
   exists st outs', run t cm (hist ++ sys_reqs dclk drst) = (st, outs') /\
     subl (map c_pin (pl_constraints pl)) (map fst (phys_reqd st)) /\
     NoDup (map c_pin (pl_constraints pl)) /\
     pl_clocks pl = (if vendor_clocks v then io_clocks st else []).
-Proof. exact (build_spec v t cm hist dclk drst unused outs pl). Qed.
+Proof. exact (build_spec v t cm hist dclk drst unused raw outs pl). Qed.
 Print Assumptions C19_build_plan_exact.
 
 (* non-vacuity: a (clock) and c are requested by the design, c's port stays unbuffered, default_clk = resource 0
    is already taken -> refused with ResourceError(already requested); without default_clk the iCE40 plan has the
    two bits of a, and the clock of the unbuffered c is still constrained *)
 Example C19_build_example :
-  snd (build VIce40 ex_tbl ex_cm [ex_req 0; ex_req 2] (Some 0) None [((2, 0), [])]) = inl (EResource RAgain) /\
-  exists pl, snd (build VIce40 ex_tbl ex_cm [ex_req 0; ex_req 2] None None [((2, 0), [])]) = inr pl /\
+  snd (build VIce40 ex_tbl ex_cm [ex_req 0; ex_req 2] (Some 0) None [((2, 0), [])] []) = inl (EResource RAgain) /\
+  exists pl, snd (build VIce40 ex_tbl ex_cm [ex_req 0; ex_req 2] None None [((2, 0), [])] [(0%nat, 1); (1%nat, 3)]) = inr pl /\
     map (fun c => (c_bit c, c_pin c)) (pl_constraints pl) = [(Some 0, 0); (Some 1, 1)] /\
     map snd (pl_clocks pl) = [8000000].
 Proof. split; [vm_compute; reflexivity|]. eexists. split; [vm_compute; reflexivity|]. split; reflexivity. Qed.
+
+(* raw I/O ports of the design (no metadata: created by the design itself, not by request()) of any width, in
+   any number, used at any position among the requested ports: they get no line, and every line of the requested
+   ports — default clock and reset included — is exactly what it is without them *)
+Theorem C19_build_raw_ports_ignored v t cm hist dclk drst unused raw :
+  build v t cm hist dclk drst unused raw = build v t cm hist dclk drst unused [].
+Proof. exact (build_raw_irrelevant v t cm hist dclk drst unused raw). Qed.
+Print Assumptions C19_build_raw_ports_ignored.
+
+(* and the list of design ports they are woven into really contains them at the stated positions *)
+Example C19_build_raw_example :
+  weave VEcp5 [(0%nat, 1); (1%nat, 2); (5%nat, 1)] 0
+        (leaves (VLeaf (mkLval 0 true (mkPort ((0, 0), []) false [7] [] false Di []) (mkPin 1 Dio 0 ((0, 0), [])) None)))
+  = [DRaw 1; DRes (mkIO (((0, 0), []), 0) [7] []); DRaw 2; DRaw 1].
+Proof. reflexivity. Qed.
